@@ -576,10 +576,30 @@ def r8(prog, ev, rep):
         rep.check(cons[0].a[1] == variant, "C05-R8", key + "/connective", where, "Filter::%s" % variant,
                   "`%s` builds Filter::%s: `&&` and `||` are swapped in the AST" % (key, cons[0].a[1]))
         pushed = [x.a[2] for x in subterms(cons[0].a[2][0][1]) if x.k == "call" and x.a[0].endswith("Vec::<T, A>::push") and len(x.a) == 3]
+        if not pushed:
+            # the operand vector built by `children.map(f).collect::<Result<Vec<_>, _>>()?`: its elements are `f(child)?`
+            v = cons[0].a[2][0][1]
+            tried = v.k == "try"
+            if tried:
+                v = v.a[0]
+            if v.k == "call" and v.a[0].endswith("Iterator::collect") and v.a[1].k == "call" and v.a[1].a[0].endswith("Iterator::map") and len(v.a[1].a) == 3:
+                fmap = v.a[1].a[2]
+                if fmap.k == "fnitem" and fmap.a[0] in prog.bodies:
+                    applied = Tm("call", (fmap.a[0], ev.item_of(v.a[1].a[1])))     # a named function mapped over the children
+                else:
+                    applied = ev.apply(fmap, [ev.item_of(v.a[1].a[1])])
+                if tried and applied.k == "call" and applied.a[0] == "core::result::Result::<T, E>::map" and len(applied.a) == 3:
+                    pushed = [ev.apply(applied.a[2], [Tm("try", (applied.a[1],))])]        # r.map(f)? == f(r?)
+                else:
+                    pushed = [Tm("try", (applied,)) if tried and applied.k != "try" else applied]
+                if pushed[0].k != "try" and pushed[0].k == "adt" and pushed[0].a[1] == "Ok":
+                    pushed = [pushed[0].a[2][0][1]]
         good = bool(pushed) and all(inner_ok(x) for x in pushed)
         rep.check(good, "C05-R8", key + "/operands", where, inner_desc, "operands pushed are %s" % [str(x) for x in pushed])
         # iteration source: children of the rule in order
         srcs = [x for x in subterms(cons[0]) if x.k == "call" and x.a[0] == "<item>"]
+        if not srcs:
+            srcs = [x for p_ in pushed for x in subterms(p_) if x.k == "call" and x.a[0] == "<item>"]
         good = bool(srcs) and all(s.a[1].k == "call" and s.a[1].a[0].endswith("Pair::<'i, R>::into_inner") and s.a[1].a[1].k == "param" for s in srcs)
         rep.check(good, "C05-R8", key + "/children", where, "for child in rule.into_inner()", "operands are not the rule's children in order")
     # filter_atom
